@@ -116,6 +116,43 @@ static void part_fp(const std::vector<unsigned>& ns, unsigned nseeds, unsigned s
 }
 
 
+// part=fpflow : a particle on the centre of a blob and the blob itself, one Fokker-Planck step, for every Fokker-Planck type (none, damping only, diffusion only, full) and
+//               both deterministic tracking approximations: the particle moves as the charge around it does (damping moves the centre by -e1 x its distance from the
+//               zero-energy row, diffusion does not move it, "none" moves nothing)
+static void part_fpflow(const std::vector<unsigned>& ns) {
+    for (unsigned n : ns) for (int fpt = 0; fpt < 4; fpt++) for (int track = 1; track <= 2; track++) for (int dt = 3; dt <= 4; dt++) for (int ie = 0; ie < 3; ie++) for (int sy = 0; sy < 2; sy++) {
+        std::string kase = mcx::Desc()("part", "fpflow")("n", n)("fptype", fpt)("track", track)("stencil", dt)("e1idx", ie)("shifty", sy).str();
+        if (!R.mine(kase)) continue;
+        if (R.out_of_time()) { R.not_completed = kase; return; }
+        set_size(n, 1);
+        auto in = mkps_shift(n, 12, 0, sy * 3, {1.f}), out = mkps_shift(n, 12, 0, sy * 3, {1.f});
+        const double e1 = ie == 0 ? 2e-3 : ie == 1 ? 1e-2 : 0.03;
+        FokkerPlanckMap m(in, out, n, n, (FokkerPlanckMap::FPType)fpt, (FokkerPlanckMap::FPTracking)track, e1, (FokkerPlanckMap::DerivationType)dt, nullptr);
+        const double zb = in->getAxis(1)->zerobin(), sig = 2.5; const unsigned c0 = n / 2;
+        const std::string key = "C15/FokkerPlanck/flow/fptype=" + std::to_string(fpt) + "/track=" + std::to_string(track);
+        double worst = 0;
+        for (unsigned yc = 9; yc + 9 < n; yc += 2) {
+            float* din = in->getData(); std::fill(din, din + (size_t)n * n, 0.f);
+            for (unsigned y = 0; y < n; y++) din[(size_t)c0 * n + y] = (float)std::exp(-0.5 * (y - (double)yc) * (y - (double)yc) / (sig * sig));
+            double q0 = 0, m0 = 0; for (unsigned y = 0; y < n; y++) { q0 += din[(size_t)c0 * n + y]; m0 += (double)din[(size_t)c0 * n + y] * y; }
+            PhaseSpace::Position pos{(float)c0, (float)yc};
+            { std::vector<PhaseSpace::Position> one = {pos}; m.apply(); m.applyToAll(one); pos = one[0]; }
+            const float* o = out->getData(); double q1 = 0, m1 = 0; for (unsigned y = 0; y < n; y++) { q1 += o[(size_t)c0 * n + y]; m1 += (double)o[(size_t)c0 * n + y] * y; }
+            const double dc = m1 / q1 - m0 / q0, dp = pos.y - yc;
+            R.eval(kase + " row=" + std::to_string(yc), mcx::fnv(&dp, 8, mcx::fnvs(kase) + yc), false);
+            // the approximations are crude (they look at one stencil): a quarter of the true shift plus a hundredth of a cell is what they are held to
+            const double tol = 0.25 * e1 * std::fabs(yc - zb) + 0.01;
+            worst = std::max(worst, std::fabs(dp - dc) / tol);
+            if (!(std::fabs(dp - dc) <= tol)) {
+                char d[240]; snprintf(d, 240, "blob centred on row %u (zero-energy row %.4g, e1 %g): the charge's centre moves by %.5f cells, the particle by %.5f", yc, zb, e1, dc, dp);
+                R.violate(key + "/does-not-follow-flow", kase, d); break;
+            }
+        }
+        R.maxnum("worst_fpflow_difference_over_tol", worst);
+    }
+    R.bound_done("fpflow: n x 4 Fokker-Planck types x 2 deterministic tracking approximations x stencils x 3 decrements x 2 zero-bin shifts x blob rows: particle shift = centroid shift of the blob it sits on");
+}
+
 // part=slow : the stochastic model with the tiny damping decrements of runs with thousands of steps per synchrotron period and a long damping time
 //             (the program's defaults give 4e-6): an equilibrium ensemble keeps its mean and width over millions of steps.
 static void part_slow(bool deep) {
@@ -219,6 +256,7 @@ int main(int argc, char** argv) {
     const bool T = true /* the wide lattices run in both tiers */; const bool D = R.thorough(); (void)D;
     part_kick(D ? std::vector<unsigned>{12, 16, 17, 24, 32, 33} : std::vector<unsigned>{12, 16, 17, 24});
     part_fp(T ? std::vector<unsigned>{12, 16, 17, 32, 33, 48} : std::vector<unsigned>{12, 13, 32}, T ? 32 : 4, T ? 400 : 200);
+    part_fpflow(D ? std::vector<unsigned>{32, 33, 48, 64} : std::vector<unsigned>{32, 48});
     part_chain(D ? std::vector<unsigned>{16, 17, 32, 33, 64} : std::vector<unsigned>{16, 17, 32}, D ? 24 : 12);
     if (R.block == 1) part_slow(D);     // (once: in the round-robin pass)
     return R.finish();
